@@ -50,3 +50,7 @@ func vAssertJSONEq(a, b []byte, what string) { panic("gosym intrinsic") }
 
 // vBound: a harness bound that must suffice (unwinding assertion); a failure is INCONCLUSIVE, never a violation
 func vBound(ok bool, msg string) { panic("gosym intrinsic") }
+
+func vJSONMember(b []byte, name string) ([]byte, bool) { panic("gosym intrinsic") } // member of a top-level object
+func vJSONKeys(b []byte) []string                      { panic("gosym intrinsic") } // member names in output order
+func vMapOrder(symbolic bool)                          { panic("gosym intrinsic") } // every map iteration order is explored while on
